@@ -88,3 +88,17 @@ CHECKS["C06"] = {
     "assumptions": ["'1_0' is excluded from the non-numeral pool (ParseFloat reads it as 10; arguable)"],
     "outside": ["number formatting/parsing of symbolic values", "containers deeper than one nesting"],
 }
+
+CHECKS["C19"] = {
+    "runs": [
+        R("./core", {"fn": r"^ZZ_C19_(range_misuse|range_sym_n[0-2]|range_pool_n[34]|keys|typeOf_kindOf|toInt_toFloat|toString_toRune_slices)$"},
+                    {"fn": r"^ZZ_C19_"}),
+        R("./packages", {"fn": r"^ZZ_C19_package_tables$"}),
+    ],
+    "expect_asserts": [r"C19\.range/length", r"C19\.range/element", r"C19\.keys/each-once", r"C19\.toInt/float64", r"C19\.tables/function-is-its-name/strings\.ToUpper", r"C19\.typeOf"],
+    "bounds": {"quick": {"range": "all int64 (start, stop, step) triples whose progression has 0..2 elements; step from a pool of 11 (incl. +-2^63 edges) with symbolic start/stop for 3..4 elements", "conversions": "symbolic numbers, concrete string pools", "package tables": "all entries (closed obligations)"},
+               "thorough": {"range": "symbolic triples for 0..3 elements; pooled steps up to 8 elements"}},
+    "stubs": ["strconv/fmt on concrete values: native", "std package variables (os.ErrExist ...) are not initialised by the engine: non-function table entries are outside the claim"],
+    "assumptions": ["range inputs are characterised from the element side: the n elements exist without overflow and stop lies within one step beyond the last"],
+    "outside": ["range results longer than 8 elements", "non-function entries of the package tables", "package table obligations are closed: decided by evaluation, not by the solver"],
+}
